@@ -53,6 +53,9 @@ CONFIGS = {
                  dict([TSAN_RT])),
     "dbg-tsan": (COMMON + HOOKS + STATS + ["-mavx2", "-O1", "-fsanitize=thread"],
                  dict([TSAN_RT])),
+    # statistics compiled out: QSBR's statistics mutexes add happens-before edges that would hide a weakened memory order from TSan
+    "rel-tsan-nostats": (COMMON + HOOKS + ["-mavx2", "-O1", "-DNDEBUG", "-fsanitize=thread"],
+                         dict([TSAN_RT])),
 }
 
 
